@@ -22,6 +22,7 @@ from pyvc.engine import is_z3
 from props import _jobharness as H
 
 ROLES = {
+    "cache-decision-and-execution-under-the-job-lock": "property:C11",
     "executes-iff-rerun-or-no-usable-result": "property:C11",
     "cache-hit-only-unerrored": "property:C11",
     "writes-only-under-cache-dir": "property:C11",
